@@ -1,8 +1,1155 @@
-//! C17 — not built yet.
+//! C17 — no outbound WebSocket message exceeds the assumed peer frame limit.
+//!
+//! Workload: for every limit L ∈ {1 KiB, 4 KiB, 64 KiB, 1 MiB, 16 MiB (thorough), none} and every
+//! outbound path — inline response, off-reader response, handler-pushed notify, registry broadcast,
+//! proxy-forwarded response, client request, client notify — the real server / proxy / client is
+//! asked to emit a message whose wire size (48 + query + body) is exactly S, for S = L−2..L+2 and
+//! random S, by solving for the body length.
+//!
+//! Oracle: a raw tungstenite peer (client for the server paths, server for the client paths) that
+//! speaks REPE through `oracle.rs` logs every binary message it receives:
+//!  * no logged message is larger than L;
+//!  * S ≤ L: the message arrives and is byte-identical to the frame the oracle codec builds;
+//!  * S > L: a response is replaced by an ec 9 response with the SAME id (and ≤ L); a notify never
+//!    arrives and an `OutboundTooLarge` report reaches `on_error`; a client request / notify fails
+//!    locally with `RepeError::MessageTooLarge` and nothing reaches the wire;
+//!  * after every case a small follow-up call on the same connection succeeds.
+
 use crate::common::*;
+use crate::oracle::{self, SpecHeader};
+use futures_util::{SinkExt, StreamExt};
+use repe::server::{HandlerErased, Router};
+use repe::websocket_server::proxy_connection_with_limits;
+use repe::{
+    AsyncClient, AsyncServer, BodyFormat, CallContext, ConnectionError, Execution, Message, NotifyBody, PeerRegistry, RepeError, WebSocketClient,
+    WebSocketLimits, WebSocketServer, proxy_connection,
+};
+use serde_json::{Value, json};
+use std::collections::{BTreeMap, HashSet};
+use std::net::SocketAddr;
+use std::sync::{Arc, Mutex};
+use std::time::{Duration, Instant};
+use tokio_tungstenite::tungstenite::Message as WsMsg;
+use tokio_tungstenite::tungstenite::protocol::WebSocketConfig;
+
+type Ws = tokio_tungstenite::WebSocketStream<tokio::net::TcpStream>;
+
+const WINDOW: Duration = Duration::from_secs(20);
+const MIB16: usize = 16 << 20;
+const LONG_ROUTE: &str = "/blob/with/a/much/longer/route/name/0123456789";
+const LONG_METHOD: &str = "/events/with/a/longer/method/name";
+
+#[derive(Clone, Copy, Debug, Hash, PartialEq, Eq, PartialOrd, Ord)]
+enum Path {
+    Inline,
+    OffReader,
+    Push,
+    Broadcast,
+    Proxy,
+    ClientReq,
+    ClientNotify,
+}
+const PATHS: [Path; 7] = [Path::Inline, Path::OffReader, Path::Push, Path::Broadcast, Path::Proxy, Path::ClientReq, Path::ClientNotify];
+impl Path {
+    fn name(self) -> &'static str {
+        match self {
+            Path::Inline => "inline-response",
+            Path::OffReader => "off-reader-response",
+            Path::Push => "handler-pushed-notify",
+            Path::Broadcast => "registry-broadcast",
+            Path::Proxy => "proxy-forwarded-response",
+            Path::ClientReq => "client-request",
+            Path::ClientNotify => "client-notify",
+        }
+    }
+    fn variants(self) -> u32 {
+        match self {
+            Path::Inline => 3,
+            Path::OffReader => 2,
+            Path::Push => 32,
+            Path::Broadcast => 8,
+            Path::Proxy => 2,
+            Path::ClientReq => 3,
+            Path::ClientNotify => 3,
+        }
+    }
+}
+
+#[derive(Clone, Debug)]
+struct CaseSpec {
+    size: usize,
+    variant: u32,
+    boundary: bool,
+}
+
+#[derive(Clone, Debug)]
+struct Group {
+    path: Path,
+    limit: Option<usize>,
+    /// use the library defaults (no explicit limits object) — only meaningful for the 16 MiB limit
+    defaults: bool,
+    cases: Vec<CaseSpec>,
+    seed: u64,
+}
+
+fn limit_name(l: Option<usize>) -> String {
+    match l {
+        None => "none".into(),
+        Some(n) if n >= 1 << 20 => format!("{}MiB", n >> 20),
+        Some(n) => format!("{}KiB", n >> 10),
+    }
+}
+
+/// Deterministic payload bytes for a token. `alpha` keeps them JSON/UTF-8 clean.
+fn pat(tok: u64, n: usize, alpha: bool) -> Vec<u8> {
+    let mut v = Vec::with_capacity(n);
+    let mut x = tok.wrapping_mul(0x9E37_79B9_7F4A_7C15) | 1;
+    for i in 0..n {
+        if i % 8 == 0 {
+            x ^= x << 13;
+            x ^= x >> 7;
+            x ^= x << 17;
+        }
+        let b = (x >> ((i % 8) * 8)) as u8;
+        v.push(if alpha { b'a' + b % 26 } else { b });
+    }
+    v
+}
+fn pat_str(tok: u64, n: usize) -> String {
+    String::from_utf8(pat(tok, n, true)).unwrap()
+}
+
+/// Body (as the library will encode it) of logical kind `fmt` whose encoded length is exactly `b`.
+/// fmt: 0 raw bytes, 1 JSON string, 2 UTF-8 text, 3 BEVE string. Returns (payload chars k, encoded body).
+fn sized_body(tok: u64, fmt: u32, b: usize) -> Option<(usize, Vec<u8>)> {
+    match fmt {
+        0 => Some((b, pat(tok, b, false))),
+        1 => {
+            let k = b.checked_sub(2)?;
+            let mut v = Vec::with_capacity(b);
+            v.push(b'"');
+            v.extend_from_slice(&pat(tok, k, true));
+            v.push(b'"');
+            Some((k, v))
+        }
+        2 => Some((b, pat(tok, b, true))),
+        _ => {
+            for over in 2..=9usize {
+                let k = b.checked_sub(over)?;
+                let enc = beve::to_vec(&pat_str(tok, k)).ok()?;
+                if enc.len() == b {
+                    return Some((k, enc));
+                }
+            }
+            None
+        }
+    }
+}
+
+fn hdr(id: u64, notify: bool, body_format: u16, ec: u32) -> SpecHeader {
+    SpecHeader { spec: oracle::SPEC, version: 1, notify: notify as u8, id, query_format: 1, body_format, ec, ..Default::default() }
+}
+
+// ------------------------------------------------------------------ plan
+
+fn plan(args: &Args) -> Vec<Group> {
+    let mut rng = Rng::new(args.seed ^ 0xC17);
+    let mut limits: Vec<(Option<usize>, bool)> = vec![(Some(1 << 10), false), (Some(4 << 10), false), (Some(64 << 10), false), (Some(1 << 20), false), (None, false)];
+    if args.thorough() {
+        limits.push((Some(MIB16), false));
+        limits.push((Some(MIB16), true));
+    }
+    let only: Option<Vec<Path>> = match args.stage.as_str() {
+        "server" => Some(vec![Path::Inline, Path::OffReader, Path::Push, Path::Broadcast, Path::Proxy]),
+        "client" => Some(vec![Path::ClientReq, Path::ClientNotify]),
+        _ => None,
+    };
+    let mut groups = vec![];
+    for (limit, defaults) in limits {
+        for path in PATHS {
+            if let Some(o) = &only {
+                if !o.contains(&path) {
+                    continue;
+                }
+            }
+            let mut cases = vec![];
+            let heavy = limit == Some(MIB16);
+            let per_boundary = if heavy { 2 } else { args.budget(6, 32) as usize };
+            let randoms = if heavy { args.budget(2, 8) as usize } else { args.budget(40, 400) as usize };
+            let nv = path.variants();
+            if let Some(l) = limit {
+                for s in [l - 2, l - 1, l, l + 1, l + 2] {
+                    let mut vs: Vec<u32> = (0..nv).collect();
+                    rng.shuffle(&mut vs);
+                    for v in vs.into_iter().take(per_boundary.max(1)) {
+                        cases.push(CaseSpec { size: s, variant: v, boundary: true });
+                    }
+                }
+                for _ in 0..randoms {
+                    let size = match rng.below(5) {
+                        0 | 1 => (l as i64 + rng.range(0, 128) as i64 - 64) as usize,
+                        2 => rng.range(160, l as u64) as usize,
+                        3 => rng.range(l as u64 + 1, (2 * l as u64).min(l as u64 + (256 << 10))) as usize,
+                        _ => rng.range(160, 700) as usize,
+                    };
+                    cases.push(CaseSpec { size: size.max(160), variant: rng.below(nv as u64) as u32, boundary: false });
+                }
+            } else {
+                for i in 0..(randoms * 2) {
+                    let size = match i % 4 {
+                        0 => rng.range(160, 2048),
+                        1 => rng.range(2048, 128 << 10),
+                        2 => rng.range(128 << 10, 2 << 20),
+                        _ => 1 << rng.range(8, 21),
+                    } as usize;
+                    cases.push(CaseSpec { size, variant: rng.below(nv as u64) as u32, boundary: false });
+                }
+                if args.thorough() {
+                    // larger than the library's own 16 MiB default: only an unguarded endpoint may send it
+                    cases.push(CaseSpec { size: MIB16 + 4097, variant: 0, boundary: false });
+                }
+            }
+            rng.shuffle(&mut cases);
+            groups.push(Group { path, limit, defaults, cases, seed: rng.next_u64() });
+        }
+    }
+    groups
+}
+
+// ------------------------------------------------------------------ workload handlers
+
+struct RawBlob {
+    off_reader: bool,
+}
+impl HandlerErased for RawBlob {
+    fn handle(&self, req: &Message) -> Result<Message, RepeError> {
+        let v: Value = serde_json::from_slice(&req.body)?;
+        let n = v["n"].as_u64().unwrap_or(0) as usize;
+        let tok = v["tok"].as_u64().unwrap_or(0);
+        Ok(Message::builder()
+            .id(req.header.id)
+            .query_format_code(req.header.query_format)
+            .body_bytes(pat(tok, n, false))
+            .body_format(BodyFormat::RawBinary)
+            .build())
+    }
+    fn execution(&self) -> Execution {
+        if self.off_reader { Execution::OffReader } else { Execution::Inline }
+    }
+}
+
+fn blob(v: Value) -> Result<Value, (repe::ErrorCode, String)> {
+    let n = v["n"].as_u64().unwrap_or(0) as usize;
+    let tok = v["tok"].as_u64().unwrap_or(0);
+    Ok(Value::String(pat_str(tok, n)))
+}
+
+fn push(ctx: &CallContext, v: Value) -> Result<Value, (repe::ErrorCode, String)> {
+    let b = v["b"].as_u64().unwrap_or(0) as usize;
+    let tok = v["tok"].as_u64().unwrap_or(0);
+    let fmt = v["fmt"].as_u64().unwrap_or(0) as u32;
+    let room = v["room"].as_bool().unwrap_or(false);
+    let method = v["method"].as_str().unwrap_or("/evt").to_string();
+    let Some((_, enc)) = sized_body(tok, if fmt == 3 { 2 } else { fmt }, b) else {
+        return Ok(json!({ "sent": "unsizable" }));
+    };
+    // with `room` the body buffer has spare capacity for header + query, so `into_wire_bytes`
+    // takes its in-place path; without it the fresh-allocation path
+    let bytes = if room {
+        let mut w = Vec::with_capacity(b + 48 + method.len() + 7);
+        w.extend_from_slice(&enc);
+        w
+    } else {
+        let mut e = enc;
+        e.shrink_to_fit();
+        e
+    };
+    let body = match fmt {
+        0 => NotifyBody::Raw(bytes, BodyFormat::RawBinary),
+        1 => NotifyBody::Json(bytes),
+        2 => NotifyBody::Utf8(String::from_utf8(bytes).unwrap_or_default()),
+        _ => NotifyBody::Beve(bytes),
+    };
+    let sent = match ctx.peer() {
+        None => "nopeer".to_string(),
+        Some(p) => match p.send_notify(&method, body) {
+            Ok(()) => "ok".to_string(),
+            Err(e) => format!("{e}"),
+        },
+    };
+    Ok(json!({ "sent": sent, "tok": tok }))
+}
+
+fn router() -> Router {
+    Router::new()
+        .with_json("/ping", |v| Ok(json!({ "pong": v["tok"].clone() })))
+        .with_json("/blob", blob)
+        .with_json(LONG_ROUTE, blob)
+        .with_json_blocking("/bblob", blob)
+        .with_erased_handler("/raw", Arc::new(RawBlob { off_reader: false }))
+        .with_erased_handler("/braw", Arc::new(RawBlob { off_reader: true }))
+        .with_json_ctx("/push", push)
+        .with_json_ctx_blocking("/bpush", push)
+}
+
+fn limits_for(l: Option<usize>) -> WebSocketLimits {
+    WebSocketLimits::default().with_assumed_peer_frame_limit(l)
+}
+
+fn unlimited_cfg() -> WebSocketConfig {
+    #[allow(deprecated)]
+    WebSocketConfig { max_frame_size: None, max_message_size: None, ..WebSocketConfig::default() }
+}
+
+// ------------------------------------------------------------------ accounting
+
+#[derive(Default)]
+struct Acc {
+    viols: Vec<(String, String, Value)>,
+    inconcl: Vec<String>,
+    counts: BTreeMap<String, u64>,
+    max_seen: usize,
+    distinct: Vec<(Path, Option<usize>, usize, u32)>,
+    evals: u64,
+    samples: Vec<Value>,
+}
+impl Acc {
+    fn count(&mut self, k: &str, n: u64) {
+        *self.counts.entry(k.to_string()).or_insert(0) += n;
+    }
+}
+
+struct Ctx<'a> {
+    g: &'a Group,
+    hb: &'a Heartbeat,
+    acc: Acc,
+}
+impl Ctx<'_> {
+    fn replay(&self, c: &CaseSpec) -> Value {
+        json!({"path": self.g.path.name(), "limit": self.g.limit, "library_defaults": self.g.defaults, "size": c.size, "variant": c.variant, "group_seed": self.g.seed.to_string()})
+    }
+    fn viol(&mut self, c: &CaseSpec, sig: String, detail: String) {
+        let d = format!("{detail} [path {} limit {} wire size {} ({:+} vs limit) variant {}]", self.g.path.name(), limit_name(self.g.limit), c.size, self.g.limit.map(|l| c.size as i64 - l as i64).unwrap_or(0), c.variant);
+        let r = self.replay(c);
+        self.acc.viols.push((sig, d, r));
+    }
+    fn progress_viol(&mut self, c: &CaseSpec, sig: String, detail: String) {
+        let gap = self.hb.max_gap_ms();
+        if gap > 1000 {
+            self.acc.inconcl.push(format!("{sig} suppressed: heartbeat saw a {gap} ms stall ({detail})"));
+        } else {
+            self.viol(c, sig, detail);
+        }
+    }
+    /// Size log: every binary message a raw peer receives goes through here.
+    fn observe(&mut self, c: &CaseSpec, len: usize) {
+        self.acc.count("binary_messages_observed_by_raw_peer", 1);
+        self.acc.max_seen = self.acc.max_seen.max(len);
+        if let Some(l) = self.g.limit {
+            if len > l {
+                self.viol(c, format!("C17:oversized-message-sent:{}", self.g.path.name()), format!("raw peer received a binary message of {len} bytes, {} over the assumed peer frame limit {l}", len - l));
+            }
+        }
+    }
+    fn over(&self, c: &CaseSpec) -> bool {
+        self.g.limit.map(|l| c.size > l).unwrap_or(false)
+    }
+    fn at(&self, c: &CaseSpec) -> &'static str {
+        match self.g.limit {
+            Some(l) if c.size == l => "exactly-at-limit",
+            _ => "below-limit",
+        }
+    }
+}
+
+// ------------------------------------------------------------------ raw client (server paths)
+
+struct Rc {
+    ws: Ws,
+    next_id: u64,
+}
+enum Got {
+    Frame(Vec<u8>),
+    Timeout,
+    Closed(String),
+}
+impl Rc {
+    async fn connect(addr: SocketAddr) -> Result<Rc, String> {
+        let stream = tokio::net::TcpStream::connect(addr).await.map_err(|e| e.to_string())?;
+        let _ = stream.set_nodelay(true);
+        let (ws, _) = tokio_tungstenite::client_async_with_config(format!("ws://{addr}/repe"), stream, Some(unlimited_cfg())).await.map_err(|e| e.to_string())?;
+        Ok(Rc { ws, next_id: 1000 })
+    }
+    fn id(&mut self) -> u64 {
+        self.next_id += 1;
+        0x00C1_7000_0000_0000 | (self.next_id << 4) | 5
+    }
+    async fn send(&mut self, f: Vec<u8>) -> Result<(), String> {
+        self.ws.send(WsMsg::Binary(f)).await.map_err(|e| e.to_string())
+    }
+    async fn recv(&mut self, dl: Instant) -> Got {
+        loop {
+            let left = dl.saturating_duration_since(Instant::now());
+            if left.is_zero() {
+                return Got::Timeout;
+            }
+            match tokio::time::timeout(left, self.ws.next()).await {
+                Err(_) => return Got::Timeout,
+                Ok(None) => return Got::Closed("stream ended".into()),
+                Ok(Some(Err(e))) => return Got::Closed(format!("transport error: {e}")),
+                Ok(Some(Ok(WsMsg::Binary(b)))) => return Got::Frame(b),
+                Ok(Some(Ok(WsMsg::Close(c)))) => return Got::Closed(format!("close frame {c:?}")),
+                Ok(Some(Ok(_))) => continue,
+            }
+        }
+    }
+}
+
+/// What came back while waiting for the reply to `id`.
+struct Exchange {
+    notifies: Vec<Vec<u8>>,
+    reply: Option<Vec<u8>>,
+    strays: Vec<Vec<u8>>,
+    closed: Option<String>,
+}
+
+async fn exchange(rc: &mut Rc, cx: &mut Ctx<'_>, c: &CaseSpec, req: Vec<u8>, id: u64, stop_on_stray: bool) -> Exchange {
+    let mut ex = Exchange { notifies: vec![], reply: None, strays: vec![], closed: None };
+    if let Err(e) = rc.send(req).await {
+        ex.closed = Some(format!("send failed: {e}"));
+        return ex;
+    }
+    let dl = Instant::now() + WINDOW;
+    loop {
+        match rc.recv(dl).await {
+            Got::Timeout => return ex,
+            Got::Closed(w) => {
+                ex.closed = Some(w);
+                return ex;
+            }
+            Got::Frame(b) => {
+                cx.observe(c, b.len());
+                match oracle::valid_parse(&b, true) {
+                    None => ex.strays.push(b),
+                    Some((h, _, _)) => {
+                        if h.notify != 0 {
+                            ex.notifies.push(b);
+                        } else if h.id == id {
+                            ex.reply = Some(b);
+                            return ex;
+                        } else {
+                            // one request is outstanding at a time, so a response-type frame with another
+                            // id is the answer under a wrong id: stop waiting
+                            ex.strays.push(b);
+                            if stop_on_stray {
+                                return ex;
+                            }
+                        }
+                    }
+                }
+            }
+        }
+    }
+}
+
+/// Small follow-up call on the same raw connection. Returns the notifies that arrived before its
+/// reply (the outbound channel is FIFO, so this is also the barrier for pushed notifies).
+async fn follow_up(rc: &mut Rc, cx: &mut Ctx<'_>, c: &CaseSpec, after: &str) -> Option<Vec<Vec<u8>>> {
+    let id = rc.id();
+    let tok = id ^ 0x55;
+    let req = oracle::frame(hdr(id, false, 2, 0), b"/ping", serde_json::to_vec(&json!({ "tok": tok })).unwrap().as_slice());
+    let ex = exchange(rc, cx, c, req, id, false).await;
+    let ok = ex.reply.as_ref().and_then(|b| {
+        let (h, ql, _) = oracle::valid_parse(b, true)?;
+        let v: Value = serde_json::from_slice(&b[oracle::HDR + ql..]).ok()?;
+        (h.ec == 0 && v["pong"].as_u64() == Some(tok)).then_some(())
+    });
+    if ok.is_some() && ex.strays.is_empty() {
+        cx.acc.count("follow_up_calls_ok", 1);
+        return Some(ex.notifies);
+    }
+    let p = cx.g.path.name();
+    if !ex.strays.is_empty() {
+        let ec = oracle::valid_parse(&ex.strays[0], true).map(|x| x.0.ec);
+        if after == "dropped-notify" {
+            cx.viol(c, format!("C17:oversized-notify-replaced-by-frame:{p}"), format!("an oversized notify must be dropped, but the peer received a {}-byte frame with ec {ec:?}: {}", ex.strays[0].len(), hex_trunc(&ex.strays[0], 64)));
+        } else {
+            cx.viol(c, format!("C17:unexpected-frame:{p}"), format!("{} unexpected frames while waiting for the follow-up reply, first {}", ex.strays.len(), hex_trunc(&ex.strays[0], 64)));
+        }
+        if ok.is_some() {
+            return Some(ex.notifies);
+        }
+    } else if let Some(w) = ex.closed {
+        cx.viol(c, format!("C17:connection-unusable-after:{after}:{p}"), format!("follow-up call failed, connection ended: {w}"));
+    } else if ex.reply.is_none() {
+        cx.progress_viol(c, format!("C17:connection-unusable-after:{after}:{p}"), format!("follow-up call got no reply within {WINDOW:?}"));
+    } else {
+        cx.viol(c, format!("C17:connection-unusable-after:{after}:{p}"), format!("follow-up call answered wrongly: {}", hex_trunc(ex.reply.as_ref().unwrap(), 80)));
+    }
+    None
+}
+
+type Reports = Arc<Mutex<Vec<(String, usize, usize)>>>;
+
+struct Srv {
+    addr: SocketAddr,
+    peers: PeerRegistry,
+    reports: Reports,
+    tasks: Vec<tokio::task::JoinHandle<()>>,
+}
+impl Drop for Srv {
+    fn drop(&mut self) {
+        for t in &self.tasks {
+            t.abort();
+        }
+    }
+}
+
+async fn start_ws_server(g: &Group) -> Result<Srv, String> {
+    let listener = tokio::net::TcpListener::bind("127.0.0.1:0").await.map_err(|e| e.to_string())?;
+    let addr = listener.local_addr().map_err(|e| e.to_string())?;
+    let peers = PeerRegistry::new();
+    let reports: Reports = Arc::new(Mutex::new(vec![]));
+    let r2 = reports.clone();
+    let mut server = WebSocketServer::new(router()).with_peer_registry(peers.clone()).on_error(move |e| {
+        if let ConnectionError::OutboundTooLarge { method, size, limit } = e {
+            r2.lock().unwrap().push((method.clone(), *size, *limit));
+        }
+    });
+    if !g.defaults {
+        server = server.with_limits(limits_for(g.limit));
+    }
+    let t = tokio::spawn(async move {
+        let _ = server.serve_listener(listener, "/repe").await;
+    });
+    Ok(Srv { addr, peers, reports, tasks: vec![t] })
+}
+
+/// TCP backend + WebSocket proxy in front of it.
+async fn start_proxy(g: &Group) -> Result<Srv, String> {
+    let backend = AsyncServer::listen("127.0.0.1:0").await.map_err(|e| e.to_string())?;
+    let baddr = backend.local_addr().map_err(|e| e.to_string())?;
+    let t1 = tokio::spawn(async move {
+        let _ = AsyncServer::new(router()).serve(backend).await;
+    });
+    let listener = tokio::net::TcpListener::bind("127.0.0.1:0").await.map_err(|e| e.to_string())?;
+    let addr = listener.local_addr().map_err(|e| e.to_string())?;
+    let (limit, defaults) = (g.limit, g.defaults);
+    let t2 = tokio::spawn(async move {
+        loop {
+            let Ok((stream, _)) = listener.accept().await else { break };
+            tokio::spawn(async move {
+                let Ok(upstream) = AsyncClient::connect(baddr).await else { return };
+                let Ok(ws) = WebSocketServer::accept(stream, "/repe").await else { return };
+                let _ = if defaults { proxy_connection(ws, upstream).await } else { proxy_connection_with_limits(ws, upstream, limits_for(limit)).await };
+            });
+        }
+    });
+    Ok(Srv { addr, peers: PeerRegistry::new(), reports: Arc::new(Mutex::new(vec![])), tasks: vec![t1, t2] })
+}
+
+/// Check the refusal reports `on_error` received since the last case.
+fn check_reports(cx: &mut Ctx<'_>, c: &CaseSpec, srv: &Srv, method: &str, is_notify: bool) {
+    let reps: Vec<(String, usize, usize)> = std::mem::take(&mut *srv.reports.lock().unwrap());
+    let p = cx.g.path.name();
+    if cx.over(c) {
+        if reps.is_empty() {
+            if is_notify {
+                cx.viol(c, format!("C17:oversized-notify-not-reported:{p}"), format!("the oversized notify {method} was dropped but no OutboundTooLarge reached on_error"));
+            } else {
+                cx.acc.count("refused_responses_without_on_error_report", 1);
+            }
+        } else {
+            cx.acc.count("on_error_outbound_too_large_reports", reps.len() as u64);
+            let exact = reps.len() == 1 && reps[0].0 == method && reps[0].1 == c.size && Some(reps[0].2) == cx.g.limit;
+            if exact {
+                cx.acc.count("on_error_reports_with_exact_method_size_limit", 1);
+            } else {
+                cx.acc.count("on_error_reports_with_other_numbers", 1);
+                if cx.acc.samples.len() < 3 {
+                    cx.acc.samples.push(json!({"odd_on_error_reports": format!("{reps:?}"), "expected": [method, c.size, cx.g.limit]}));
+                }
+            }
+        }
+    } else if !reps.is_empty() {
+        cx.acc.count("on_error_reports_for_messages_within_limit", reps.len() as u64);
+    }
+}
+
+/// Server-side paths: one case on an open raw connection. Returns false when the connection must be replaced.
+async fn server_case(rc: &mut Rc, srv: &Srv, cx: &mut Ctx<'_>, c: &CaseSpec, tok: u64) -> bool {
+    let path = cx.g.path;
+    let p = path.name();
+    let over = cx.over(c);
+    match path {
+        Path::Inline | Path::OffReader | Path::Proxy => {
+            let (route, fmt): (&str, u32) = match (path, c.variant) {
+                (Path::Inline, 0) => ("/blob", 1),
+                (Path::Inline, 1) => ("/raw", 0),
+                (Path::Inline, _) => (LONG_ROUTE, 1),
+                (Path::OffReader, 0) => ("/bblob", 1),
+                (Path::OffReader, _) => ("/braw", 0),
+                (_, 0) => ("/blob", 1),
+                (_, _) => ("/raw", 0),
+            };
+            let b = c.size - 48 - route.len();
+            let Some((k, body)) = sized_body(tok, fmt, b) else { return true };
+            let id = rc.id();
+            let req = oracle::frame(hdr(id, false, 2, 0), route.as_bytes(), serde_json::to_vec(&json!({ "n": k, "tok": tok })).unwrap().as_slice());
+            let ex = exchange(rc, cx, c, req, id, true).await;
+            if let Some(f) = ex.notifies.first() {
+                cx.viol(c, format!("C17:unexpected-frame:{p}"), format!("unexpected notify frame while waiting for the reply: {}", hex_trunc(f, 64)));
+            }
+            if let (None, Some(f)) = (&ex.reply, ex.strays.first()) {
+                let sh = oracle::valid_parse(f, true).map(|x| x.0);
+                let what = if over { "oversized-response-not-replaced" } else { "within-limit-response-lost" };
+                cx.viol(
+                    c,
+                    format!("C17:{what}:{p}:wrong-id"),
+                    format!("request id {id} was answered by a frame with id {:?} ec {:?} ({} bytes): {}", sh.map(|h| h.id), sh.map(|h| h.ec), f.len(), String::from_utf8_lossy(&f[48.min(f.len())..f.len().min(160)])),
+                );
+                return follow_up(rc, cx, c, "misaddressed-response").await.is_some();
+            }
+            let Some(reply) = ex.reply else {
+                let what = if over { "oversized-response-not-replaced" } else { "within-limit-response-lost" };
+                match ex.closed {
+                    Some(w) => cx.viol(c, format!("C17:{what}:{p}:connection-closed"), format!("no reply to request id {id}; the connection ended: {w}")),
+                    None => cx.progress_viol(c, format!("C17:{what}:{p}:no-reply"), format!("no reply to request id {id} within {WINDOW:?}")),
+                }
+                return false;
+            };
+            let (h, _, _) = oracle::valid_parse(&reply, true).unwrap();
+            if over {
+                if h.ec == 9 && h.id == id && cx.g.limit.map(|l| reply.len() <= l).unwrap_or(true) {
+                    cx.acc.count("oversized_responses_replaced_by_ec9_same_id", 1);
+                } else if reply.len() == c.size {
+                    cx.viol(c, format!("C17:oversized-response-not-replaced:{p}:sent-as-is"), format!("the {}-byte response was sent unchanged (ec {})", reply.len(), h.ec));
+                } else {
+                    cx.viol(c, format!("C17:oversized-response-not-replaced:{p}:ec={}", h.ec), format!("reply is {} bytes, ec {}, id {} (request id {id}): {}", reply.len(), h.ec, h.id, hex_trunc(&reply, 96)));
+                }
+            } else {
+                let want = oracle::frame(hdr(id, false, if fmt == 0 { 0 } else { 2 }, 0), route.as_bytes(), &body);
+                if reply == want {
+                    cx.acc.count("within_limit_messages_byte_identical", 1);
+                    if Some(c.size) == cx.g.limit {
+                        cx.acc.count("messages_exactly_at_limit_delivered", 1);
+                    }
+                } else if h.ec != 0 {
+                    cx.viol(c, format!("C17:within-limit-message-refused:{p}:{}", cx.at(c)), format!("a {}-byte response was answered with ec {} instead: {}", c.size, h.ec, String::from_utf8_lossy(&reply[48.min(reply.len())..reply.len().min(200)])));
+                } else {
+                    let at = reply.iter().zip(want.iter()).position(|(a, b)| a != b).unwrap_or(reply.len().min(want.len()));
+                    cx.viol(c, format!("C17:within-limit-message-altered:{p}"), format!("response differs from the oracle frame: got {} bytes, want {}, first difference at byte {at}; got header {}", reply.len(), want.len(), hex(&reply[..48.min(reply.len())])));
+                }
+            }
+            let alive = follow_up(rc, cx, c, if over { "refused-response" } else { "delivered-response" }).await.is_some();
+            if path != Path::Proxy {
+                check_reports(cx, c, srv, route, false);
+            }
+            alive
+        }
+        Path::Push => {
+            let v = c.variant;
+            let route = if v & 1 == 0 { "/push" } else { "/bpush" };
+            let fmt = (v >> 1) & 3;
+            let room = (v >> 3) & 1 == 1;
+            let method = if (v >> 4) & 1 == 0 { "/evt" } else { LONG_METHOD };
+            let b = c.size - 48 - method.len();
+            let Some((_, body)) = sized_body(tok, if fmt == 3 { 2 } else { fmt }, b) else { return true };
+            let bf: u16 = match fmt {
+                0 => 0,
+                1 => 2,
+                2 => 3,
+                _ => 1,
+            };
+            let id = rc.id();
+            let req = oracle::frame(hdr(id, false, 2, 0), route.as_bytes(), serde_json::to_vec(&json!({ "b": b, "tok": tok, "fmt": fmt, "room": room, "method": method })).unwrap().as_slice());
+            let ex = exchange(rc, cx, c, req, id, false).await;
+            let sent_ok = ex.reply.as_ref().and_then(|r| {
+                let (h, ql, _) = oracle::valid_parse(r, true)?;
+                let v: Value = serde_json::from_slice(&r[oracle::HDR + ql..]).ok()?;
+                (h.ec == 0 && v["sent"] == "ok").then_some(())
+            });
+            if sent_ok.is_none() {
+                match (&ex.reply, &ex.closed) {
+                    (Some(r), _) => cx.acc.inconcl.push(format!("push handler could not queue the notify: {}", String::from_utf8_lossy(&r[48.min(r.len())..r.len().min(160)]))),
+                    (None, Some(w)) => cx.viol(c, format!("C17:connection-lost:{p}"), format!("connection ended while a {}-byte notify was pushed: {w}", c.size)),
+                    (None, None) => cx.progress_viol(c, format!("C17:no-reply:{p}"), format!("push request got no reply within {WINDOW:?}")),
+                }
+                return false;
+            }
+            if let Some(f) = ex.strays.first() {
+                let ec = oracle::valid_parse(f, true).map(|x| x.0.ec);
+                if over {
+                    cx.viol(c, format!("C17:oversized-notify-replaced-by-frame:{p}"), format!("an oversized notify must be dropped, but the peer received a {}-byte frame with ec {ec:?}: {}", f.len(), hex_trunc(f, 64)));
+                } else {
+                    cx.viol(c, format!("C17:unexpected-frame:{p}"), format!("unexpected frame before the push reply: {}", hex_trunc(f, 64)));
+                }
+            }
+            let mut nots = ex.notifies;
+            let alive = match follow_up(rc, cx, c, if over { "dropped-notify" } else { "delivered-notify" }).await {
+                Some(more) => {
+                    nots.extend(more);
+                    true
+                }
+                None => false,
+            };
+            if judge_notify(cx, c, &nots, method, bf, &body) || !over {
+                check_reports(cx, c, srv, method, true);
+            } else {
+                std::mem::take(&mut *srv.reports.lock().unwrap());
+            }
+            alive
+        }
+        Path::Broadcast => {
+            let v = c.variant;
+            let fmt = v & 3;
+            let method = if (v >> 2) & 1 == 0 { "/evt" } else { LONG_METHOD };
+            let b = c.size - 48 - method.len();
+            let Some((k, body)) = sized_body(tok, fmt, b) else { return true };
+            if srv.peers.len() != 1 {
+                cx.acc.inconcl.push(format!("registry holds {} peers, expected exactly the raw client", srv.peers.len()));
+                return false;
+            }
+            let res = match fmt {
+                0 => Ok(srv.peers.broadcast_notify_raw(method, BodyFormat::RawBinary, &body)),
+                1 => srv.peers.broadcast_notify_json(method, &pat_str(tok, k)),
+                2 => Ok(srv.peers.broadcast_notify_utf8(method, pat_str(tok, k))),
+                _ => srv.peers.broadcast_notify_beve(method, &pat_str(tok, k)),
+            };
+            let bf: u16 = match fmt {
+                0 => 0,
+                1 => 2,
+                2 => 3,
+                _ => 1,
+            };
+            match res {
+                Ok(m) if m.len() == 1 && m.values().all(|r| r.is_ok()) => {}
+                other => {
+                    cx.acc.inconcl.push(format!("broadcast did not queue for the one peer: {other:?}"));
+                    return false;
+                }
+            }
+            let alive;
+            let nots = match follow_up(rc, cx, c, if over { "dropped-notify" } else { "delivered-notify" }).await {
+                Some(n) => {
+                    alive = true;
+                    n
+                }
+                None => {
+                    alive = false;
+                    vec![]
+                }
+            };
+            if alive {
+                if judge_notify(cx, c, &nots, method, bf, &body) || !over {
+                    check_reports(cx, c, srv, method, true);
+                } else {
+                    std::mem::take(&mut *srv.reports.lock().unwrap());
+                }
+            }
+            alive
+        }
+        _ => true,
+    }
+}
+
+/// Returns true when the notify did not reach the peer.
+fn judge_notify(cx: &mut Ctx<'_>, c: &CaseSpec, nots: &[Vec<u8>], method: &str, bf: u16, body: &[u8]) -> bool {
+    let p = cx.g.path.name();
+    if cx.over(c) {
+        if nots.is_empty() {
+            cx.acc.count("oversized_notifies_dropped", 1);
+        } else if nots.iter().any(|n| n.len() == c.size) {
+            cx.viol(c, format!("C17:oversized-notify-sent:{p}"), format!("the {}-byte notify {method} reached the peer", c.size));
+        } else {
+            cx.viol(c, format!("C17:oversized-notify-replaced-by-frame:{p}"), format!("an oversized notify must be dropped, but the peer received {}", hex_trunc(&nots[0], 96)));
+        }
+        return nots.is_empty();
+    }
+    let want = oracle::frame(hdr(0, true, bf, 0), method.as_bytes(), body);
+    match nots {
+        [] => cx.viol(c, format!("C17:within-limit-message-refused:{p}:{}", cx.at(c)), format!("the {}-byte notify {method} never arrived (FIFO barrier: the follow-up reply did)", c.size)),
+        [one] if *one == want => {
+            cx.acc.count("within_limit_messages_byte_identical", 1);
+            if Some(c.size) == cx.g.limit {
+                cx.acc.count("messages_exactly_at_limit_delivered", 1);
+            }
+        }
+        [one] => {
+            let at = one.iter().zip(want.iter()).position(|(a, b)| a != b).unwrap_or(one.len().min(want.len()));
+            cx.viol(c, format!("C17:within-limit-message-altered:{p}"), format!("notify differs from the oracle frame: got {} bytes, want {}, first difference at byte {at}; got header {}", one.len(), want.len(), hex(&one[..48.min(one.len())])));
+        }
+        many => cx.viol(c, format!("C17:unexpected-frame:{p}"), format!("{} notify frames arrived for one push", many.len())),
+    }
+    nots.is_empty()
+}
+
+async fn run_server_group(g: &Group, hb: &Heartbeat) -> Acc {
+    let mut cx = Ctx { g, hb, acc: Acc::default() };
+    let srv = match if g.path == Path::Proxy { start_proxy(g).await } else { start_ws_server(g).await } {
+        Ok(s) => s,
+        Err(e) => {
+            cx.acc.inconcl.push(format!("server setup: {e}"));
+            return cx.acc;
+        }
+    };
+    let mut rc: Option<Rc> = None;
+    let mut reconnects = 0;
+    let mut tokc = g.seed | 1;
+    for c in &g.cases {
+        if rc.is_none() {
+            match Rc::connect(srv.addr).await {
+                Ok(mut r) => {
+                    // make sure the peer is registered before the first broadcast
+                    let warm = CaseSpec { size: 0, variant: 0, boundary: false };
+                    if follow_up(&mut r, &mut cx, &warm, "connect").await.is_none() {
+                        cx.acc.inconcl.push("fresh connection does not answer a ping".into());
+                        break;
+                    }
+                    rc = Some(r);
+                }
+                Err(e) => {
+                    cx.acc.inconcl.push(format!("raw client connect: {e}"));
+                    break;
+                }
+            }
+        }
+        tokc = tokc.wrapping_mul(6364136223846793005).wrapping_add(1442695040888963407);
+        let tok = tokc >> 12;
+        cx.acc.evals += 1;
+        cx.acc.distinct.push((g.path, g.limit, c.size, c.variant));
+        let before = cx.acc.viols.len();
+        let alive = server_case(rc.as_mut().unwrap(), &srv, &mut cx, c, tok).await;
+        if cx.over(c) {
+            cx.acc.count("cases_over_limit", 1);
+        } else {
+            cx.acc.count("cases_within_limit", 1);
+        }
+        if cx.acc.samples.len() < 1 && c.boundary && cx.acc.viols.len() == before {
+            cx.acc.samples.push(json!({"path": g.path.name(), "limit": g.limit, "size": c.size, "variant": c.variant, "verdict": if cx.over(c) {"refused as specified"} else {"delivered byte-identical"}}));
+        }
+        if !alive {
+            if let Some(mut r) = rc.take() {
+                let _ = tokio::time::timeout(Duration::from_secs(1), r.ws.close(None)).await;
+            }
+            std::mem::take(&mut *srv.reports.lock().unwrap());
+            reconnects += 1;
+            if reconnects > 2 {
+                break;
+            }
+            // wait for the registry to forget the old peer
+            let dl = Instant::now() + Duration::from_secs(5);
+            while srv.peers.len() > 0 && Instant::now() < dl {
+                tokio::time::sleep(Duration::from_millis(5)).await;
+            }
+        }
+    }
+    if let Some(mut r) = rc.take() {
+        let _ = tokio::time::timeout(Duration::from_secs(1), r.ws.close(None)).await;
+    }
+    cx.acc.count("reconnects_after_failures", reconnects);
+    cx.acc
+}
+
+// ------------------------------------------------------------------ raw server (client paths)
+
+type FrameLog = Arc<Mutex<Vec<Vec<u8>>>>;
+
+async fn start_raw_server() -> Result<(SocketAddr, FrameLog, tokio::task::JoinHandle<()>), String> {
+    let listener = tokio::net::TcpListener::bind("127.0.0.1:0").await.map_err(|e| e.to_string())?;
+    let addr = listener.local_addr().map_err(|e| e.to_string())?;
+    let log: FrameLog = Arc::new(Mutex::new(vec![]));
+    let l2 = log.clone();
+    let t = tokio::spawn(async move {
+        loop {
+            let Ok((stream, _)) = listener.accept().await else { break };
+            let log = l2.clone();
+            tokio::spawn(async move {
+                let _ = stream.set_nodelay(true);
+                let Ok(mut ws) = tokio_tungstenite::accept_async_with_config(stream, Some(unlimited_cfg())).await else { return };
+                while let Some(Ok(m)) = ws.next().await {
+                    if let WsMsg::Binary(b) = m {
+                        let reply = oracle::valid_parse(&b, true).and_then(|(h, ql, _)| {
+                            (h.notify == 0).then(|| oracle::frame(hdr(h.id, false, 2, 0), &b[oracle::HDR..oracle::HDR + ql], b"null"))
+                        });
+                        log.lock().unwrap().push(b);
+                        if let Some(r) = reply {
+                            if ws.send(WsMsg::Binary(r)).await.is_err() {
+                                break;
+                            }
+                        }
+                    }
+                }
+            });
+        }
+    });
+    Ok((addr, log, t))
+}
+
+async fn run_client_group(g: &Group, hb: &Heartbeat) -> Acc {
+    let mut cx = Ctx { g, hb, acc: Acc::default() };
+    let (addr, log, task) = match start_raw_server().await {
+        Ok(x) => x,
+        Err(e) => {
+            cx.acc.inconcl.push(format!("raw server: {e}"));
+            return cx.acc;
+        }
+    };
+    let url = format!("ws://{addr}/repe");
+    let mut client: Option<WebSocketClient> = None;
+    let mut reconnects = 0u64;
+    let mut tokc = g.seed | 1;
+    let p = g.path.name();
+    let mut ids_seen: HashSet<u64> = HashSet::new();
+    for c in &g.cases {
+        if client.is_none() {
+            let r = if g.defaults { WebSocketClient::connect(&url).await } else { WebSocketClient::connect_with_limits(&url, limits_for(g.limit)).await };
+            match r {
+                Ok(cl) => client = Some(cl),
+                Err(e) => {
+                    cx.acc.inconcl.push(format!("client connect: {e}"));
+                    break;
+                }
+            }
+            log.lock().unwrap().clear();
+        }
+        let cl = client.as_ref().unwrap().clone();
+        tokc = tokc.wrapping_mul(6364136223846793005).wrapping_add(1442695040888963407);
+        let tok = tokc >> 12;
+        cx.acc.evals += 1;
+        cx.acc.distinct.push((g.path, g.limit, c.size, c.variant));
+        let over = cx.over(c);
+        if over {
+            cx.acc.count("cases_over_limit", 1);
+        } else {
+            cx.acc.count("cases_within_limit", 1);
+        }
+        let route = if tok & 1 == 0 { "/sink" } else { LONG_ROUTE };
+        let b = c.size - 48 - route.len();
+        // variant: 0 raw bytes via *_with_formats, 1 JSON string via call_json / notify_json, 2 BEVE string via *_typed_beve
+        let fmt = match c.variant {
+            0 => 0,
+            1 => 1,
+            _ => 3,
+        };
+        let Some((k, body)) = sized_body(tok, fmt, b) else { continue };
+        let is_notify = g.path == Path::ClientNotify;
+        let res: Result<(), RepeError> = match (is_notify, c.variant) {
+            (false, 0) => cl.call_with_formats_and_timeout(route, 1, Some(&body), 0, WINDOW).await.map(|_| ()),
+            (false, 1) => cl.call_json_with_timeout(route, &pat_str(tok, k), WINDOW).await.map(|_| ()),
+            (false, _) => cl.call_typed_beve_with_timeout::<_, _, Value>(route, &pat_str(tok, k), WINDOW).await.map(|_| ()),
+            (true, 0) => cl.notify_with_formats(route, 1, Some(&body), 0).await,
+            (true, 1) => cl.notify_json(route, &pat_str(tok, k)).await,
+            (true, _) => cl.notify_typed_beve(route, &pat_str(tok, k)).await,
+        };
+        let bf: u16 = match c.variant {
+            0 => 0,
+            1 => 2,
+            _ => 1,
+        };
+        // follow-up small call on the same client: also the barrier for what reached the wire
+        let fu = cl.call_json_with_timeout("/ping", &json!({ "tok": tok }), WINDOW).await;
+        let frames: Vec<Vec<u8>> = std::mem::take(&mut *log.lock().unwrap());
+        for f in &frames {
+            cx.observe(c, f.len());
+        }
+        let mut usable = true;
+        match &fu {
+            Ok(_) => cx.acc.count("follow_up_calls_ok", 1),
+            Err(e) => {
+                usable = false;
+                let after = if over { "refused-message" } else { "delivered-message" };
+                if matches!(e, RepeError::Io(x) if x.kind() == std::io::ErrorKind::TimedOut) {
+                    cx.progress_viol(c, format!("C17:connection-unusable-after:{after}:{p}"), format!("follow-up call failed: {e}"));
+                } else {
+                    cx.viol(c, format!("C17:connection-unusable-after:{after}:{p}"), format!("follow-up call failed: {e}"));
+                }
+            }
+        }
+        // what the raw server saw for this case, without the follow-up ping
+        let mine: Vec<&Vec<u8>> = frames.iter().filter(|f| oracle::valid_parse(f, true).map(|(_, ql, _)| &f[oracle::HDR..oracle::HDR + ql] != b"/ping").unwrap_or(true)).collect();
+        if over {
+            match &res {
+                Err(RepeError::MessageTooLarge { size, limit }) => {
+                    cx.acc.count("oversized_client_messages_refused_locally", 1);
+                    if *size == c.size && Some(*limit) == g.limit {
+                        cx.acc.count("too_large_errors_with_exact_size_and_limit", 1);
+                    } else {
+                        cx.acc.count("too_large_errors_with_other_numbers", 1);
+                    }
+                }
+                Ok(()) => cx.viol(c, format!("C17:oversized-client-message-not-refused:{p}"), "the call returned Ok".to_string()),
+                Err(e) => cx.viol(c, format!("C17:oversized-client-message-wrong-error:{p}"), format!("expected MessageTooLarge, got: {e}")),
+            }
+            if !mine.is_empty() {
+                cx.viol(c, format!("C17:refused-client-message-reached-wire:{p}"), format!("{} frames reached the peer, first is {} bytes", mine.len(), mine[0].len()));
+            } else if usable {
+                cx.acc.count("refused_client_messages_nothing_on_wire", 1);
+            }
+        } else {
+            match &res {
+                Ok(()) => {}
+                Err(RepeError::MessageTooLarge { size, limit }) => {
+                    cx.viol(c, format!("C17:within-limit-message-refused:{p}:{}", cx.at(c)), format!("refused locally with MessageTooLarge {{ size: {size}, limit: {limit} }}"));
+                }
+                Err(e) => {
+                    usable = false;
+                    cx.progress_viol(c, format!("C17:within-limit-client-message-failed:{p}"), format!("{e}"));
+                }
+            }
+            if res.is_ok() {
+                match mine.as_slice() {
+                    [one] => {
+                        let got = oracle::valid_parse(one, true);
+                        let id = got.map(|g| g.0.id).unwrap_or(0);
+                        let want = oracle::frame(hdr(id, is_notify, bf, 0), route.as_bytes(), &body);
+                        if **one == want {
+                            cx.acc.count("within_limit_messages_byte_identical", 1);
+                            if Some(c.size) == g.limit {
+                                cx.acc.count("messages_exactly_at_limit_delivered", 1);
+                            }
+                            if !ids_seen.insert(id) {
+                                cx.acc.count("client_request_ids_reused", 1);
+                            }
+                        } else {
+                            let at = one.iter().zip(want.iter()).position(|(a, b)| a != b).unwrap_or(one.len().min(want.len()));
+                            cx.viol(c, format!("C17:within-limit-message-altered:{p}"), format!("frame at the peer differs from the oracle frame: got {} bytes, want {}, first difference at byte {at}; got header {}", one.len(), want.len(), hex(&one[..48.min(one.len())])));
+                        }
+                    }
+                    [] => cx.viol(c, format!("C17:within-limit-message-refused:{p}:{}", cx.at(c)), "the call returned Ok but nothing reached the peer before the follow-up call".to_string()),
+                    many => cx.viol(c, format!("C17:unexpected-frame:{p}"), format!("{} frames reached the peer for one call", many.len())),
+                }
+            }
+        }
+        if cx.acc.samples.is_empty() && c.boundary {
+            cx.acc.samples.push(json!({"path": p, "limit": g.limit, "size": c.size, "variant": c.variant, "result": format!("{res:?}").chars().take(120).collect::<String>(), "frames_at_peer": mine.len()}));
+        }
+        if !usable {
+            client = None;
+            reconnects += 1;
+            if reconnects > 2 {
+                break;
+            }
+        }
+    }
+    cx.acc.count("reconnects_after_failures", reconnects);
+    drop(client);
+    task.abort();
+    cx.acc
+}
+
+// ------------------------------------------------------------------ stage
 
 pub fn run(args: &Args) -> Report {
-    let mut rep = Report::new(args, "c17-stub", "stub");
-    rep.inconclusive("check not implemented");
+    let mut rep = Report::new(
+        args,
+        "c17-outbound-limit",
+        "for each assumed peer frame limit × outbound path × wire size (limit−2..limit+2 and random, hit exactly by solving \
+         48+query+body): a raw tungstenite peer logs every binary message; none exceeds the limit; ≤ limit ⇒ byte-identical to \
+         the oracle frame; > limit ⇒ response replaced by ec 9 with the same id / notify dropped and reported to on_error / \
+         client call fails with MessageTooLarge and nothing is sent; a follow-up call works after every case. \
+         distinct = (path, limit, wire size, variant)",
+    );
+    let rt = match tokio::runtime::Builder::new_multi_thread().worker_threads(8).enable_all().build() {
+        Ok(r) => r,
+        Err(e) => {
+            rep.inconclusive(format!("tokio runtime: {e}"));
+            return rep;
+        }
+    };
+    let groups = match &args.replay {
+        None => plan(args),
+        Some(p) => {
+            // replay one witness: the "replay" object of a violation
+            let v: Option<Value> = std::fs::read_to_string(p).ok().and_then(|s| serde_json::from_str(&s).ok());
+            let g = v.and_then(|v| {
+                Some(Group {
+                    path: *PATHS.iter().find(|x| Some(x.name()) == v["path"].as_str())?,
+                    limit: v["limit"].as_u64().map(|x| x as usize),
+                    defaults: v["library_defaults"].as_bool().unwrap_or(false),
+                    cases: vec![CaseSpec { size: v["size"].as_u64()? as usize, variant: v["variant"].as_u64()? as u32, boundary: true }],
+                    seed: v["group_seed"].as_str().and_then(|x| x.parse().ok()).unwrap_or(1),
+                })
+            });
+            match g {
+                Some(g) => vec![g],
+                None => {
+                    rep.inconclusive(format!("cannot read replay case {p}"));
+                    return rep;
+                }
+            }
+        }
+    };
+    let hb = Arc::new(Heartbeat::start());
+    quiet_panics(true);
+    let heavy = Arc::new(tokio::sync::Semaphore::new(2));
+    let light = Arc::new(tokio::sync::Semaphore::new(14));
+    let accs: Vec<(Group, Option<Acc>)> = rt.block_on(async {
+        let mut set = tokio::task::JoinSet::new();
+        for g in groups {
+            let (hb, heavy, light) = (hb.clone(), heavy.clone(), light.clone());
+            set.spawn(async move {
+                let sem = if g.limit == Some(MIB16) { heavy } else { light };
+                let _p = sem.acquire_owned().await;
+                let budget = Duration::from_secs(if g.limit == Some(MIB16) { 420 } else { 240 });
+                let fut = async {
+                    match g.path {
+                        Path::ClientReq | Path::ClientNotify => run_client_group(&g, &hb).await,
+                        _ => run_server_group(&g, &hb).await,
+                    }
+                };
+                let acc = tokio::time::timeout(budget, fut).await.ok();
+                (g, acc)
+            });
+        }
+        let mut out = vec![];
+        while let Some(r) = set.join_next().await {
+            if let Ok(x) = r {
+                out.push(x);
+            }
+        }
+        out
+    });
+    quiet_panics(false);
+    rt.shutdown_timeout(Duration::from_secs(3));
+
+    let mut per_path: BTreeMap<String, u64> = BTreeMap::new();
+    let mut max_by_limit: BTreeMap<String, usize> = BTreeMap::new();
+    let mut counts: BTreeMap<String, u64> = BTreeMap::new();
+    for (g, acc) in accs {
+        let Some(acc) = acc else {
+            rep.inconclusive(format!("group {} / limit {} exceeded its wall budget", g.path.name(), limit_name(g.limit)));
+            continue;
+        };
+        rep.evaluations += acc.evals;
+        for d in &acc.distinct {
+            rep.distinct(d);
+        }
+        *per_path.entry(g.path.name().to_string()).or_insert(0) += acc.evals;
+        let e = max_by_limit.entry(limit_name(g.limit)).or_insert(0);
+        *e = (*e).max(acc.max_seen);
+        for (k, v) in acc.counts {
+            *counts.entry(k).or_insert(0) += v;
+        }
+        for (sig, d, r) in acc.viols {
+            rep.violation(sig, d, r);
+        }
+        for i in acc.inconcl {
+            rep.inconclusive(format!("{i} [{} limit {}]", g.path.name(), limit_name(g.limit)));
+        }
+        for s in acc.samples {
+            rep.sample(s);
+        }
+    }
+    for (k, v) in &counts {
+        rep.set(k, json!(v));
+    }
+    rep.set("cases_per_path", json!(per_path));
+    rep.set("largest_message_observed_by_limit", json!(max_by_limit));
+    rep.set("heartbeat_max_gap_ms", json!(hb.max_gap_ms()));
+    let need = ["within_limit_messages_byte_identical", "cases_over_limit", "messages_exactly_at_limit_delivered"];
+    if args.replay.is_none() && rep.violations.is_empty() && need.iter().any(|k| counts.get(*k).copied().unwrap_or(0) == 0) {
+        rep.inconclusive("too few events: no delivered, at-limit or over-limit case was observed");
+    }
     rep
 }
